@@ -126,6 +126,9 @@ struct Plan {
     /// bitflags! invocations replaced by a generated plain struct with verified methods (R9)
     #[serde(default)]
     bitflags_stub: bool,
+    /// R18 variant: bring in `vx_lit_<name>()` equations instead of character facts
+    #[serde(default)]
+    strlit_named: bool,
     /// literals whose word constant `w_<name>` + bridging lemma `vx_lit_<name>` are defined by the overlay
     #[serde(default)]
     known_lits: Vec<String>,
@@ -135,6 +138,8 @@ struct Plan {
     /// generate entry facts for the string literals of every verified function (R18)
     #[serde(default)]
     strlit_facts: bool,
+    #[serde(default)]
+    outlines: Vec<Outline>,
     /// traits that get an explicit `: Sized` supertrait (R15; implied by their method signatures)
     #[serde(default)]
     trait_sized: Vec<String>,
@@ -156,6 +161,32 @@ struct ExprHoist {
     /// when set, the helper is emitted as a method `impl <method_of> { fn name(&self, ..) }` and called as self.name(args)
     #[serde(default)]
     method_of: String,
+}
+
+/// R21 (outlining): the first `match` with at least `min_arms` arms inside `in_fn` becomes the body of a generated
+/// method (verified, not external); locals assigned inside are passed by `&mut` and dereferenced in the body.
+#[derive(Deserialize, Clone)]
+struct Outline {
+    in_fn: String,
+    name: String,
+    method_of: String,
+    /// signature after the name, e.g. "(&self, lemma: &str, b: &mut DigitString) -> (r: Result<(), Error>)"
+    sig: String,
+    #[serde(default)]
+    spec: String,
+    /// call arguments
+    args: String,
+    #[serde(default)]
+    mut_vars: Vec<String>,
+    #[serde(default = "default_min_arms")]
+    min_arms: usize,
+    #[serde(default)]
+    entry: String,
+    #[serde(default)]
+    attrs: String,
+}
+fn default_min_arms() -> usize {
+    8
 }
 
 #[derive(Deserialize, Clone)]
@@ -223,6 +254,12 @@ struct Ctx<'p> {
     used_chain_hoists: HashSet<usize>,
     used_expr_hoists: HashSet<String>,
     impl_prefix: Option<String>,
+    /// R21: (edit index, outline) recorded while visiting; rendered after the item
+    pending_outlines: Vec<(usize, Outline, String, Vec<String>)>,
+    outline_lits: Option<Vec<String>>,
+    /// variables rewritten to `*v` inside the region being outlined: (region start, region end, names)
+    deref_region: Option<(usize, usize, Vec<String>)>,
+    used_outlines: HashSet<String>,
     /// pass A of R16: every fn of the item is external and gets no contract
     force_plain: bool,
     /// pass B of R16: emit the inherent copy
@@ -413,6 +450,20 @@ impl<'p> Ctx<'p> {
                 // that the solver can tell literals apart)
                 let mut t = String::from("\n    proof { // generated: string-literal facts (R18)\n");
                 for l in &f.strlits {
+                    if self.plan.strlit_named {
+                        // words are atoms: only the equation literal == named constant is brought in
+                        let name = wname(l);
+                        t.push_str(&format!("        vx_lit_{name}(); // {:?}\n", l));
+                        if !self.plan.known_lits.iter().any(|k| k == l) {
+                            let chars: Vec<String> = l.chars().map(|c| format!("{:?}", c)).collect();
+                            let body = if chars.is_empty() { "Seq::<char>::empty()".to_string() } else { format!("seq![{}]", chars.join(", ")) };
+                            let lit = format!("{:?}", l);
+                            self.helpers.push(format!(
+                                "// word constant for a literal of the code that the overlay does not name (R18)\npub open spec fn w_{name}() -> Seq<char> {{ {body} }}\npub proof fn vx_lit_{name}() ensures {lit}@ == w_{name}() {{ reveal_strlit({lit}); assert({lit}@ =~= {body}); }}\n"
+                            ));
+                        }
+                        continue;
+                    }
                     let chars: Vec<char> = l.chars().collect();
                     let lit = format!("{:?}", l);
                     t.push_str(&format!("        reveal_strlit({lit}); assert({lit}@.len() == {}", chars.len()));
@@ -927,6 +978,13 @@ impl<'ast, 'p> Visit<'ast> for Ctx<'p> {
     }
 
     fn visit_lit_str(&mut self, l: &'ast syn::LitStr) {
+        if let Some(v) = self.outline_lits.as_mut() {
+            let x = l.value();
+            if !v.contains(&x) {
+                v.push(x);
+            }
+            return;
+        }
         if let Some(f) = self.fn_stack.last_mut() {
             let v = l.value();
             if !f.strlits.contains(&v) && v.chars().count() <= 40 {
@@ -1196,6 +1254,18 @@ impl<'ast, 'p> Visit<'ast> for Ctx<'p> {
     }
 
     fn visit_expr_path(&mut self, p: &'ast syn::ExprPath) {
+        if let Some((rs, re, vars)) = &self.deref_region {
+            let (s, e) = br(p.span());
+            if s >= *rs && e <= *re {
+                if let Some(id) = p.path.get_ident() {
+                    if vars.iter().any(|v| id == v.as_str()) {
+                        let name = id.to_string();
+                        self.replace(s, e, vec![Part::Lit(format!("(*{})", name))]);
+                        return;
+                    }
+                }
+            }
+        }
         if p.path.is_ident("self") && self.fn_stack.last().map(|f| f.rename_self).unwrap_or(false) {
             let (s, e) = br(p.span());
             self.replace(s, e, vec![Part::Lit("self_".into())]);
@@ -1204,6 +1274,34 @@ impl<'ast, 'p> Visit<'ast> for Ctx<'p> {
     }
 
     fn visit_expr(&mut self, ex: &'ast syn::Expr) {
+        if self.in_verified_fn() && !self.plan.outlines.is_empty() {
+            if let syn::Expr::Match(m) = ex {
+                let fnk = self.cur_fn();
+                let hit = self
+                    .plan
+                    .outlines
+                    .iter()
+                    .find(|o| o.in_fn == fnk && m.arms.len() >= o.min_arms && !self.used_outlines.contains(&o.name))
+                    .cloned();
+                if let Some(o) = hit {
+                    let (s, e) = br(ex.span());
+                    self.used_outlines.insert(o.name.clone());
+                    let idx = self.edits.len();
+                    self.replace(s, e, vec![Part::Lit(format!("self.{}({})", o.name, o.args))]);
+                    self.log(s, "R21", &format!("match ({} arms) outlined into method {}", m.arms.len(), o.name));
+                    let old = self.deref_region.take();
+                    if !o.mut_vars.is_empty() {
+                        self.deref_region = Some((s, e, o.mut_vars.clone()));
+                    }
+                    let old_l = self.outline_lits.replace(Vec::new());
+                    visit::visit_expr(self, ex);
+                    let lits = std::mem::replace(&mut self.outline_lits, old_l).unwrap_or_default();
+                    self.deref_region = old;
+                    self.pending_outlines.push((idx, o.clone(), fnk.clone(), lits));
+                    return;
+                }
+            }
+        }
         if self.in_verified_fn() && !self.plan.expr_hoists.is_empty() {
             let (s, e) = br(ex.span());
             let fnk = self.cur_fn();
@@ -1525,6 +1623,10 @@ fn main() {
         used_chain_hoists: HashSet::new(),
         used_expr_hoists: HashSet::new(),
         impl_prefix: None,
+        pending_outlines: Vec::new(),
+        outline_lits: None,
+        deref_region: None,
+        used_outlines: HashSet::new(),
         force_plain: false,
         copy_mode: false,
         copy_names: Vec::new(),
@@ -1716,6 +1818,43 @@ fn main() {
         rendered.push_str(&format!("// @item {} ({}:{})\n", key, short(&plan.file), cx.line_of(s)));
         rendered.push_str(&render(&src, &cx.edits, &parents, s, e, None));
         rendered.push_str("\n\n");
+        let pend: Vec<(usize, Outline, String, Vec<String>)> = cx.pending_outlines.drain(..).collect();
+        for (idx, o, from, lits) in pend {
+            let mut lit_entry = String::new();
+            if plan.strlit_facts && plan.strlit_named && !lits.is_empty() {
+                lit_entry.push_str("    proof { // generated: literal == word-constant equations (R18)\n");
+                for l in &lits {
+                    let name = wname(l);
+                    lit_entry.push_str(&format!("        vx_lit_{name}(); // {:?}\n", l));
+                    if !plan.known_lits.iter().any(|k| k == l) {
+                        let chars: Vec<String> = l.chars().map(|c| format!("{:?}", c)).collect();
+                        let body = if chars.is_empty() { "Seq::<char>::empty()".to_string() } else { format!("seq![{}]", chars.join(", ")) };
+                        let lit = format!("{:?}", l);
+                        cx.helpers.push(format!(
+                            "// word constant for a literal of the code that the overlay does not name (R18)\npub open spec fn w_{name}() -> Seq<char> {{ {body} }}\npub proof fn vx_lit_{name}() ensures {lit}@ == w_{name}() {{ reveal_strlit({lit}); assert({lit}@ =~= {body}); }}\n"
+                        ));
+                    }
+                }
+                lit_entry.push_str("    }\n");
+                cx.out.log.push(format!("{}:{} R18 {}::{} entry equations for {} string literals", short(&plan.file), cx.line_of(cx.edits[idx].start), o.method_of, o.name, lits.len()));
+            }
+            let (os, oe) = (cx.edits[idx].start, cx.edits[idx].end);
+            let body = render(&src, &cx.edits, &parents, os, oe, Some(idx));
+            let okey = format!("{}::{}", o.method_of, o.name);
+            rendered.push_str(&format!(
+                "// outlined from {} (R21): the body below is the `match` expression of that function, moved verbatim\nimpl {} {{\n// @fn {}\n{}\nfn {}{}\n{}\n{{\n{}\n{}\n}}\n}}\n\n",
+                from, o.method_of, okey, o.attrs, o.name, o.sig, o.spec, format!("{}{}", lit_entry, o.entry), body
+            ));
+            cx.out.fns.push(FnInfo {
+                key: okey,
+                line: cx.line_of(os),
+                end_line: cx.line_of(oe),
+                contracted: true,
+                external: false,
+                loops: 0,
+                decl: false,
+            });
+        }
         cx.edits.clear();
     }
     // drop individual functions listed in plan.drop (by fn key): replace by nothing
@@ -1731,6 +1870,14 @@ fn main() {
             let ext = cx.out.fns.iter().any(|f| f.key == h.in_fn && f.external);
             if !ext {
                 cx.out.warnings.push(format!("hoist rule {} (chain #{} of {}) not applied", h.name, h.nth, h.in_fn));
+            }
+        }
+    }
+    for o in plan.outlines.iter() {
+        if !cx.used_outlines.contains(&o.name) {
+            let ext = cx.out.fns.iter().any(|f| f.key == o.in_fn && f.external);
+            if !ext {
+                cx.out.errors.push(format!("lost anchor: no match with >= {} arms found in `{}` to outline as {}", o.min_arms, o.in_fn, o.name));
             }
         }
     }
